@@ -796,6 +796,15 @@ func writeEvidence(env Env, p Property, tier string, seed uint64, aggs []*phaseA
 		"stub_components":     d.StubComponents,
 		"time_cap_reached":    timedOut,
 	}
+	if !timedOut && violations == 0 {
+		// a reach probe or fault kind stuck at zero means the workload does not
+		// get there: say so on every run (it is not a verdict)
+		for _, n := range append(append([]string{}, d.FaultKinds...), d.Probes...) {
+			if counters[n] == 0 {
+				fmt.Fprintf(os.Stderr, "note: property=%s tier=%s counter %q stayed at zero in this run\n", p.ID(), tier, n)
+			}
+		}
+	}
 	if replay != "" {
 		cov["replay"] = replay
 	}
